@@ -49,7 +49,8 @@ def populate(spec):
     """build a PRISM object and overwrite its arrays; returns (prism, snapshot dict of plain arrays)"""
     P = target()
     rank, n = spec['rank'], spec['length']
-    types = NAMES[:rank]
+    # type names are arbitrary labels, not the default letters in order
+    types = [NAMES, ['D', 'B', 'A', 'C'], ['solvent', 'polymer', 'filler', 'ion'], ['b', 'a', 'd', 'c']][n % 4][:rank]
     s = P.System(types, kT=spec['kT'])
     s.domain = P.Domain(length=n, dr=spec['dr'])
     for t, r, d in zip(types, spec['rho'], spec['dia']):
@@ -153,6 +154,19 @@ def judge(pr0, snap, out, sig):
                 return f(*a, **kw)
 
     def sym_ma(res, name):
+        # the result is addressed by type names by its users: labels and name-keyed reads must agree with the positional data
+        if list(getattr(res, 'types', [])) != list(types):
+            out.fail(sig + name + '/result-types', '%s: result carries types %r, the system has %r' % (name, list(getattr(res, 'types', [])), list(types)))
+        else:
+            for i_, a_ in enumerate(types):
+                for j_, b_ in enumerate(types):
+                    try:
+                        ok_ = np.array_equal(np.asarray(res[a_, b_]), res.data[:, i_, j_], equal_nan=True)
+                    except Exception as exc_:   # noqa
+                        ok_ = False
+                    if not ok_:
+                        out.fail(sig + name + '/named-access', '%s: result[%r,%r] is not the (%d,%d) pair function of the result' % (name, a_, b_, i_, j_))
+                        break
         d = res.data
         if not np.array_equal(d, np.transpose(d, (0, 2, 1)), equal_nan=True):
             out.fail(sig + name + '/result-not-symmetric', '%s: returned pair functions differ between (a,b) and (b,a)' % name)
@@ -173,6 +187,7 @@ def judge(pr0, snap, out, sig):
     neg = want < 0
     if w.data.shape == want.shape and np.any(neg) and not np.all(np.isnan(w.data[neg])):
         out.fail(sig + 'pmf/negative-g-not-nan', 'pmf is not NaN where g < 0')
+    sym_ma(w, 'pmf')
     # structure_factor
     S = {}
     for norm in (True, False):
@@ -311,6 +326,8 @@ def judge(pr0, snap, out, sig):
                 clo, '-kT*C S C' if clo == 'HNC' else '-kT*ln(1+C S C)'))
         if psi.space != target().Space.Real:
             out.fail(sig + 'solvation_potential/space-flag', 'solvation_potential result is not flagged Real')
+        if bool(np.all(finite)):
+            sym_ma(psi, 'solvation_potential')
         out.label('psi-%s-%s' % (clo, 'finite' if bool(np.all(finite)) else 'nan-branch'))
 
 
